@@ -88,6 +88,7 @@ func (x *Exec) mapComp(st *State, mt *types.Map, what string, leaf Sort) (string
 	}
 	var s Sort
 	if what == ".len" {
+		x.mapLenKeys[key] = true
 		s = ArrSort(SInt, SInt)
 	} else {
 		s = ArrSort(SInt, ArrSort(SInt, leaf))
